@@ -1,5 +1,6 @@
 from __future__ import annotations
 
+import copy
 import io
 from functools import partial
 
@@ -166,7 +167,9 @@ def read_text(
 
 def file_to_blocks(include_path, lazy_file, delimiter=None):
     # blocksize is None branch
-    with lazy_file as f:
+    # Work on a copy: the lazy file is part of the graph and may be entered by
+    # several computations of the same bag at once (see read_block_from_file)
+    with copy.copy(lazy_file) as f:
         if delimiter is not None:
             text = f.read()
             if not text:
